@@ -26,6 +26,16 @@ inductive Op where
   | createOrUpdate (directed : Bool) (axes : Option J)
   /-- continue with `add_or_update_props_metadata(obj, props, c_type)` -/
   | addProps (props : List J) (cType : String)
+  /-- continue with `compute_and_add_axis_min_max(obj, node_props)`; `cols` is what the helper sees of the
+  node-property columns (see `MinMaxCol`) -/
+  | minMax (cols : List (String × MinMaxCol))
+
+/-- well-formedness of an operation's inputs: the reduced bounds of `minMax` satisfy "not `lo > hi`" -/
+def Op.WF : Op → Prop
+  | .minMax cols => ∀ c ∈ cols, c.2.WF
+  | _ => True
+
+instance (op : Op) : Decidable op.WF := by cases op <;> unfold Op.WF <;> infer_instance
 
 def start (env : Env) : Init → Except Err MetaObj
   | .parse doc => parse env doc
@@ -43,6 +53,7 @@ def step (env : Env) (o : MetaObj) : Op → Option Err × MetaObj
     ofExcept o (updateMetadataAxes env o names units types scales scaledUnits offset)
   | .createOrUpdate directed axes => ofExcept o (createOrUpdateMetadata env (some o) directed axes)
   | .addProps props cType => ofExcept o (addOrUpdatePropsMetadata env o props cType)
+  | .minMax cols => ofExcept o (computeAndAddAxisMinMax o cols)
 
 /-- the object after a whole history -/
 def run (env : Env) (o : MetaObj) (ops : List Op) : MetaObj :=
